@@ -754,3 +754,50 @@ def resolve_promoted(facts, t):
     if len(rb) != 1:
         return t
     return pft.return_term(rb[0])
+
+
+# ---------------------------------------------------------------------- evaluation of float formulas at a point
+
+def feval(t, env):
+    """value of a float-valued term at a point (env: stripped term -> float).  Used only to compare two MIR-derived
+    closed-form formulas of one function at a constant that the code itself names (branch thresholds)."""
+    import math
+    from .terms import const_float
+    k = strip_site(t)
+    if k in env:
+        return env[k]
+    v = const_float(t)
+    if v is not None:
+        return v
+    if is_const(t) and t[1] == "int":
+        return float(t[2])
+    tag = t[0]
+    if tag == "bin":
+        a, b = feval(t[2], env), feval(t[3], env)
+        op = t[1]
+        if op == "Add":
+            return a + b
+        if op == "Sub":
+            return a - b
+        if op == "Mul":
+            return a * b
+        if op == "Div":
+            return a / b
+        raise Undetermined(op)
+    if tag == "un" and t[1] == "Neg":
+        return -feval(t[2], env)
+    if tag == "cast" and t[1] in ("IntToFloat", "FloatToFloat"):
+        return float(feval(t[2], env))
+    if tag in ("ref", "deref"):
+        return feval(t[2] if tag == "ref" else t[1], env)
+    if tag == "call" and isinstance(t[1], str):
+        name = t[1].split("::")[-1]
+        fns = {"sin": math.sin, "cos": math.cos, "tan": math.tan, "acos": math.acos, "asin": math.asin, "atan": math.atan,
+               "sqrt": math.sqrt, "abs": abs, "exp": math.exp, "ln": math.log}
+        if "<impl f64>" in t[1] and name in fns and len(t[2]) == 1:
+            return fns[name](feval(t[2][0], env))
+        if "<impl f64>" in t[1] and name == "atan2":
+            return math.atan2(feval(t[2][0], env), feval(t[2][1], env))
+        if "<impl f64>" in t[1] and name == "powi":
+            return feval(t[2][0], env) ** int(ieval(None, t[2][1], {}))
+    raise Undetermined(tag)
